@@ -19,8 +19,17 @@ func (c *Ctx) handoverRule(rule string, producer *ssa.Function) {
 	// when the goroutine delegates parse-and-enqueue to a per-line helper, the hand-over is checked in that helper:
 	// every path from the parser call (accepted line) to a return of the helper passes the blocking send
 	if pf := c.producerFrame(); pf != nil && pf.Member == producer && pf.Via != nil {
-		c.handoverInHelper(rule, pf)
-		return
+		parsesThere := false
+		funcInstrs(pf.Frame, func(in ssa.Instruction) {
+			if call, ok := in.(*ssa.Call); ok && call.Call.StaticCallee() == pl {
+				parsesThere = true
+			}
+		})
+		if parsesThere {
+			c.handoverInHelper(rule, pf)
+			return
+		}
+		// a helper that only enqueues the line it is given: judged below, at its call in the goroutine's own body
 	}
 	var reads []ssa.Instruction
 	var parses []*ssa.Call
